@@ -5,10 +5,36 @@ from lib import vf
 PROBE = r'''
 import sys, json
 sys.path.insert(0, sys.argv[1]); sys.path.insert(0, sys.argv[2])
-import appinit
+sys.argv = [sys.argv[0], sys.argv[1]]
+import world_harness as wh
 import fake_trx, clck_gen, gsm_shared, data_msg, inspect
 F = fake_trx.FakeTRX
-d = appinit.extract(sys.argv[1])
+# the wiring is OBSERVED on a world built by the real Application.__init__ (no source pattern matching):
+# FakePM ranges, child management of BTS / MS, and the receive sizes asked of the sockets
+app = wh.build([])
+bts, ms = app.trx_list.trx_list[0], app.trx_list.trx_list[1]
+asked = {}
+class Spy(wh.FakeSocket):
+    def recvfrom(self, n):
+        asked[self.tag] = n
+        return b"", ("127.0.0.1", 1)
+for tag, link in (("ctrl", bts.ctrl_if), ("data", bts.data_if)):
+    link.sock.__class__ = Spy
+    link.sock.tag = tag
+try:
+    bts.ctrl_if.handle_rx()
+except Exception:
+    pass
+try:
+    bts.recv_data_msg()
+except Exception:
+    pass
+pm = app.fake_pm
+d = {"fake_pm_args": [pm.noise_min, pm.noise_max, pm.trx_min, pm.trx_max],
+     "append_trx_kwargs": [{"child_mgt": bool(bts.child_mgt)}, {"child_mgt": bool(ms.child_mgt)}],
+     "ctrl_recv": asked["ctrl"], "data_recv": asked["data"]}
+if app.clck_gen._thread is not None:
+    app.clck_gen.stop()
 d.update({
   "nominal_tx_power": F.NOMINAL_TX_POWER_DEFAULT, "tx_att": F.TX_ATT_DEFAULT, "path_loss": F.PATH_LOSS_DEFAULT,
   "toa256_base": F.TOA256_BASE_DEFAULT, "ci_base": F.CI_BASE_DEFAULT,
@@ -17,13 +43,16 @@ d.update({
   "trxc_delay_max_ms": F.TRXC_DELAY_MAX_MS,
 })
 sig = inspect.signature(clck_gen.CLCKGen.__init__)
-d["ind_period"] = sig.parameters["ind_period"].default
-d["clck_start"] = sig.parameters["clck_start"].default
+d["ind_period"] = app.clck_gen.ind_period
+d["clck_start"] = app.clck_gen.clck_start
 bt = {b: i for i, b in enumerate(gsm_shared.BurstType)}
 d["burst_types"] = [b.name for b in gsm_shared.BurstType]
 d["train_seqs"] = [[ts.name, ts.tsc, ts.bt.name, list(ts.seq), ts.tsc_set] for ts in list(gsm_shared.TrainingSeqGMSK)]
+import rand_burst_gen
+d["dummy_burst"] = list(rand_burst_gen.RandBurstGen.db_bits)
 print(json.dumps(d))
 '''
+
 
 def generate(run):
     rc, out = vf.sh([vf.PY, "-c", PROBE, vf.TRX, os.path.join(vf.ROOT, "harness/py")], check=True)
@@ -58,6 +87,9 @@ def generate(run):
          "def trainSeqs : List (String × Nat × String × List Nat × Nat) := ["]
     L.append(",\n".join("  (%s, %d, %s, %s, %d)" % (vf.lean_str(n), tsc, vf.lean_str(bt), vf.lean_nat_list(seq), ts)
                         for n, tsc, bt, seq, ts in d["train_seqs"]))
-    L += ["]", "end OsmoVerif.Gen.World", ""]
+    L += ["]",
+          "/-- `RandBurstGen.db_bits` (rand_burst_gen.py) -/",
+          "def dummyBurst : List Nat := %s" % vf.lean_nat_list(d["dummy_burst"]),
+          "end OsmoVerif.Gen.World", ""]
     vf.write_if_changed(os.path.join(vf.LEAN, "OsmoVerif/Gen/World.lean"), "\n".join(L))
     return d
